@@ -18,16 +18,16 @@ Two oracles, both TLA+:
       evaluated at entry, (type? p) is "lazyArg", its evaluation starts only under a force, at most once however
       the evaluation ended (value, error, a force of itself), in the caller's lexical environment; every force
       returns that value; substitute returns the source); MCLazyRules: TLC explores a model of one call (all masks,
-      positional / named in every order, succeeding / failing / self-forcing arguments, up to 3 forces in and after
+      positional / named in every order, succeeding / failing / self-forcing arguments, up to 2 forces in and after
       the call) with the monitor in lock-step: Sound (nothing a correct interpreter does is rejected) and
       Sensitive (each of 7 seeded deviations is rejected).
     bind (family lazy2): instrumented programs -- defn / variadic defn / typed func declarations x masks x call
       routes (direct, alias, computed, inside a caller that returns, parameter, re-declared, self tail call,
       tail call to a let variable / parameter / inner defn / re-definition of the same name) x arguments by
-      position or by name (declared and reverse order) x argument expressions (plain, failing, forcing their own
+      position or by name (declared and reverse order; also in the self tail call of a typed func) x argument expressions (plain, failing, forcing their own
       promise, infix {..} forms, func declarations) x receivers whose locals are named like builders x force
-      patterns (none, once, twice, substitute, in reverse, from later evaluations once/twice, after a failed
-      force); the host functions record the events, TLC validates every case against LazyRules.
+      patterns (none, once, twice, substitute, from later evaluations once/twice, in the call and again later,
+      after a failed force); the host functions record the events, TLC validates every case against LazyRules.
 """
 import collections, json, os
 import vlib, flow, semflow
@@ -35,7 +35,7 @@ import vlib, flow, semflow
 PROP = "C16"
 
 RULE = ("all masks of lazy/strict parameters (1..3) x variadic tail x 21 call routes x 5 force patterns against ZSem; "
-        "declaration kinds x masks x 12 call routes x positional/named arguments x 6 argument kinds x 9 force patterns "
+        "declaration kinds x masks x 12 call routes x positional/named arguments x 6 argument kinds x 7 force patterns "
         "against LazyRules (both enumerated completely: the same sets in both tiers)")
 
 
@@ -76,7 +76,9 @@ def run():
     out = flow.Outcome(PROP)
     zv = vlib.build_zv()
     # design audit of the rules: sound on the model of a correct call, sensitive to every seeded deviation
-    flow.mc_runs(out, [{"module": "MCLazyRules.tla", "cfg": "MCLazyRules.cfg", "workers": 1, "timeout": 900}])
+    # (one worker: the registers the Sensitive postcondition reads are per worker)
+    cfg = "MCLazyRulesDeep.cfg" if vlib.tier() == "thorough" else "MCLazyRules.cfg"   # 3 parameters / 3 forces : 2 / 2
+    flow.mc_runs(out, [{"module": "MCLazyRules.tla", "cfg": cfg, "workers": 1, "timeout": 2400}])
     # (1) the reference interpreter
     t1 = os.path.join(vlib.scratch(), "lazy.ndjson")
     vlib.run_zv(zv, "lazy", [], t1)
@@ -113,8 +115,6 @@ def run():
         "LazyRules judges the events recorded by host functions of instrumented programs; the static description of a "
         "program (parameters of every function, arguments of every call form) is written by the generator from the text it emits",
         "the order in which strict arguments are evaluated is judged by ZSem only; apply and map are judged by ZSem only",
-        "self tail calls of typed functions with arguments given by name are not generated (refused with an arity error: "
-        "no argument is mistreated)",
     ])
 
 
